@@ -23,6 +23,7 @@ class Exec(StmtMixin):
         self.last_call_fresh = True
         self.info = None
         self.covers = []
+        self.callret_seen = {}
 
     # override: remember freshness of call results for alias tracking
     def call_contract(self, c, recv, pos, kw, st, node, recv_node=None, arg_nodes=None):
